@@ -336,7 +336,11 @@ func (self *BinaryConv) doRecurse(ctx context.Context, s string, jp int, desc *t
 							p.Buf = p.Buf[:ks]
 						}
 
-						bm.Set(ft.ID(), thrift.OptionalRequireness)
+						// a null value means "not given": a required or default field stays owed,
+						// exactly as the native implementation handles it
+						if err != errNull || ft.Required() == thrift.OptionalRequireness {
+							bm.Set(ft.ID(), thrift.OptionalRequireness)
+						}
 					}
 
 				OBJECT_NEXT:
